@@ -370,6 +370,39 @@ def _pow10_arg(v):
     return None
 
 
+def check_newref(repo, coder, rr):
+    """coder.process_numeric_of_new_refval hands process_numeric the reference new_refvals[id] * refval_factor (203 value under 207)."""
+    nf = repo.method(coder, 'process_numeric_of_new_refval')
+    it = WalkInterp(repo, coder)
+
+    def mk():
+        loc = {}
+        for p in nf.params:
+            if p == 'self':
+                loc[p] = Obj(coder, {})
+            elif p == 'state':
+                loc[p] = sym_state(repo, it, {'new_refvals': {12101: Sym('NEWREF')}})
+            elif p.startswith('bit_'):
+                loc[p] = Top('b')
+            elif p == 'descriptor':
+                loc[p] = element(12101)
+            else:
+                loc[p] = Sym('P:' + p)
+        return loc
+    res = it.run_function(nf, mk, self_class=coder)
+    rr.instance('%s.process_numeric_of_new_refval: reference = new_refvals[id] * factor' % coder)
+    for r in res:
+        em = [e for e in r.events if e[0] == 'emit']
+        ok = r.ok and len(em) == 1 and em[0][1] == 'process_numeric'
+        if ok:
+            d, nbits, sp, refval = em[0][2]
+            ok = repr(nbits) == 'P:nbits' and repr(sp) == 'P:scale_powered' and isinstance(refval, Sym) and refval.op == 'mul' \
+                and set(map(repr, refval.args)) == {'NEWREF', 'P:refval_factor'}
+        if not ok:
+            rr.fail('%s.process_numeric_of_new_refval' % coder, nf.where, 'the reference used for an element redefined by 203YYY is not new_refvals[id] * refval_factor '
+                    '(the 207YYY factor): %s' % ([(e[1], [repr(a) for a in e[2][1:]]) for e in em] or r.describe()))
+
+
 def rule_r5(repo):
     rr = RuleResult('C01.R5', 'register -> field def-use in process_element_descriptor')
     fi = repo.method('Decoder', 'process_element_descriptor')
@@ -412,22 +445,7 @@ def rule_r5(repo):
         if repr(fac) != 'BSR.refval_factor' or not lin_eq(nbits, Sym('add', Sym('add', Sym('D.nbits'), Sym('S.nbits_offset')), Sym('BSR.nbits_increment'))):
             rr.fail(key + ':newref-args', fi.where, 'new-reference emission has width %r and factor %r' % (nbits, fac))
     # the Decoder's runtime lookup: new_refvals[id] * refval_factor
-    nf = repo.method('Decoder', 'process_numeric_of_new_refval')
-    it = WalkInterp(repo, 'Decoder')
-    res = it.run_function(nf, lambda: {'self': Obj('Decoder', {}), 'state': sym_state(repo, it, {'new_refvals': {12101: Sym('NEWREF')}}),
-                                       'bit_reader': Top('b'), 'descriptor': element(12101), 'nbits': Sym('P:nbits'),
-                                       'scale_powered': Sym('P:scale_powered'), 'refval_factor': Sym('P:refval_factor')}, self_class='Decoder')
-    rr.instance('Decoder.process_numeric_of_new_refval: reference = new_refvals[id] * factor')
-    for r in res:
-        em = [e for e in r.events if e[0] == 'emit']
-        ok = r.ok and len(em) == 1 and em[0][1] == 'process_numeric'
-        if ok:
-            d, nbits, sp, refval = em[0][2]
-            ok = repr(nbits) == 'P:nbits' and repr(sp) == 'P:scale_powered' and isinstance(refval, Sym) and refval.op == 'mul' \
-                and set(map(repr, refval.args)) == {'NEWREF', 'P:refval_factor'}
-        if not ok:
-            rr.fail('Decoder.process_numeric_of_new_refval', nf.where, 'the runtime reference is not new_refvals[id] * refval_factor: %s' % (
-                [(e[1], [repr(a) for a in e[2][1:]]) for e in em] or r.describe()))
+    check_newref(repo, 'Decoder', rr)
     # code / flag: width untouched by 201/207
     for uk in ('UNITS_FLAG_TABLE', 'UNITS_CODE_TABLE'):
         res = run(element(20003, unit=units[uk]))
